@@ -1,4 +1,4 @@
 SPECIFICATION FairSpec
-CONSTANTS Threads <- T  Items <- W  Joins <- J  Scenarios <- Scn  FirstCloserOnly = FALSE
+CONSTANTS Threads <- T  Items <- W  Joins <- J  Scenarios <- Scn  FirstCloserOnly = TRUE
 PROPERTY Terminates
 CHECK_DEADLOCK TRUE
